@@ -567,7 +567,12 @@ class Probe:
             if done() >= 2:
                 return 'ok'
             fate = self.dead(selector)
-            return fate if fate is not None else 'watchdog'
+            if fate is not None:
+                return fate
+            elsewhere = sum(1 for p in self.picks if p['selector'] is selector and p['registry'] is not registry
+                            and p['thread'] is not self.main and p['start'] > after)
+            # the refresher is alive and keeps refreshing other registries of this selector - just never this one
+            return 'skipped' if elsewhere >= 4 and done() == 0 else 'watchdog'
 
     @staticmethod
     def retire(selector):
@@ -755,6 +760,11 @@ def check_history(ctx, lab, probe, application, asset, history):
                     fate = probe.barrier(selector, dirs[reg], last_commit[reg])
                     if fate == 'watchdog':
                         raise_inconclusive(f'no two refresher picks within {WATCHDOG}s (history step {step})')
+                    if fate == 'skipped':
+                        ctx.violation('latest-refresher-skips-registry', f'the refresher of Latest(release={configured}) keeps '
+                                      f'refreshing its other registries but never registry #{reg} (model newest {newest(reg)}): '
+                                      f'generations committed there are never picked up', dict(witness, step=step))
+                        return
                     if fate != 'ok':
                         if configured is not None and any(empty_at_first) and isinstance(fate, asset.Level.Listing.Empty):
                             key = 'latest-configured-empty-release-refresher-dies'
